@@ -687,9 +687,10 @@ def _report_check(chk, tier, pid):
                 count = {c: sum(len(rr.get(pn) or []) for pn in cat[c] if isinstance(rr.get(pn), list)) for c in bindrive.CATS}
                 count_of[qn] = count
                 sev_of[qn] = sorted(set(vlib_sev(pn) for pn in cat["vulnerabilities"] if isinstance(rr.get(pn), list) and rr.get(pn)))
-                for shape in ("flat", "nested", "script"):
+                for shape in ("flat", "nested", "script", "artifact"):
                     troot = os.path.join(scratch2, "q%d%s" % (qi, shape))
-                    where = troot if shape == "flat" else os.path.join(troot, "script") if shape == "script" else os.path.join(troot, "sub", "inner")
+                    where = (troot if shape == "flat" else os.path.join(troot, "script") if shape == "script"
+                             else os.path.join(troot, "contracts", "Vault.sol") if shape == "artifact" else os.path.join(troot, "sub", "inner"))
                     os.makedirs(where)
                     # (a forge script X.s.sol is a Solidity source like any other)
                     with open(os.path.join(where, qn + (".s.sol" if shape == "script" else ".sol")), "w") as f:
@@ -895,6 +896,10 @@ def _pipeline(chk, tier, pid, beh):
              {"entries": [fl("A.sol", "c1"), fl("Deep.sol", "c10"), dr("sub", [fl("Deep2.sol", "c10"), fl("Z.sol", "c2")]), fl("Z.sol", "c5")]},
              # a file of free functions, structs and constants only (c12), alone in its directory and next to others
              {"entries": [dr("types", [fl("Free.sol", "c12")]), fl("Other.sol", "c2"), fl("Free2.sol", "c12")]},
+             # one file declares state variables, another one WRITES variables of the same names (and the reverse)
+             {"entries": [fl("A.sol", "c1"), fl("B.sol", "c14"), dr("more", [fl("C.sol", "c15"), fl("D.sol", "c14")])]},
+             # large files whose multi-byte characters straddle every block boundary
+             {"entries": [fl("Wide0.sol", "w0"), dr("w", [fl("Wide1.sol", "w1"), fl("Wide2.sol", "w2")]), fl("Z.sol", "c2")]},
              # several findings of one pattern inside one declaration (c11)
              {"entries": [fl("Wrapped.sol", "c11"), dr("again", [fl("Wrapped.sol", "c11"), fl("a.sol", "c5")])]},
              # a reformatted copy of a file under the same name elsewhere in the tree (vendored code): its lines are its own
@@ -993,6 +998,8 @@ def check_c15(chk, tier):
     def describe2(rec, why):
         return ("dir-verdict-depends-on-context:%s" % why, "analyze_dir result differs from the isolated per-file results (%s): %s" % (why, json.dumps(rec["result"])[:300]))
     trace_validate(chk, "TV_DirWalk", t2, describe2, timeout=3000)
+    # at the report: what is listed for a file in a run over a tree is what is listed for it in a run over it alone
+    _pipeline(chk, tier, "C15", [])
     chk.exhaustive = True
     chk.rule = ("TLC enumerates every Begin/End interleaving of 2 threads x 2 calls, 3 threads x 1 call (thorough: 3 x 2) "
                 "of the caller model; each schedule is enforced on real threads calling the real analyze_for_* (turn tokens "
@@ -1314,8 +1321,10 @@ def _c18_execute(chk, sb, hist):
             f.write(b"\x00\xff not solidity")
         os.makedirs(os.path.join(root, "other"))
         # version control and tool configuration files in every working directory and in the analysed tree
-        for furnished in (proj, root, inner, os.path.join(root, "other")):
+        for furnished in (proj, root, os.path.join(root, "other")):
             bindrive.furnish(furnished)
+        # the sub-directory is a working directory below the project root: no project configuration of its own
+        bindrive.furnish(inner, markers=False)
         cwds = {"in": proj, "parent": root, "sub": inner, "other": os.path.join(root, "other")}
         pathof = {"in": ".", "parent": "proj", "sub": "..", "other": proj}
         one_toml = os.path.join(root, "one.toml")
